@@ -1,3 +1,6 @@
 import Biogo.Properties.C03_seq
 open Biogo.Properties.C03_seq
-#print axioms empty_input_is_eof
+#print axioms fasta_never_panics
+#print axioms fasta_progress
+#print axioms fasta_record_or_error
+#print axioms fasta_rejects_data_before_header
